@@ -662,7 +662,7 @@ func (c *Client) Start() (addr net.Addr, err error) {
 		cmd = exec.Command("")
 	}
 	if !c.config.SkipHostEnv {
-		cmd.Env = append(cmd.Env, os.Environ()...)
+		cmd.Env = append(cmd.Env, hostEnv()...)
 	}
 	cmd.Env = append(cmd.Env, env...)
 	cmd.Stdin = os.Stdin
@@ -949,6 +949,24 @@ func (c *Client) Start() (addr net.Addr, err error) {
 
 	c.address = addr
 	return
+}
+
+// hostEnv returns the host's environment without the variables go-plugin
+// itself uses to pass negotiation settings to a plugin. A host that is itself
+// a plugin carries the values its own parent gave it; handing those on would
+// make the new plugin act on another client's certificate, multiplexing
+// request or socket settings instead of this client's configuration.
+func hostEnv() []string {
+	var out []string
+	for _, kv := range os.Environ() {
+		key, _, _ := strings.Cut(kv, "=")
+		switch key {
+		case "PLUGIN_CLIENT_CERT", envMultiplexGRPC, EnvUnixSocketDir, EnvUnixSocketGroup:
+			continue
+		}
+		out = append(out, kv)
+	}
+	return out
 }
 
 // loadServerCert is used by AutoMTLS to read an x.509 cert returned by the
